@@ -486,6 +486,35 @@ func runC15(c *fw.Ctx) {
 					q.Pairs[i] = &wmpt.PersistTriePair{Value: o}
 					run.feed("element replaced by another node", enc(q))
 				}
+				// a structural element sent twice in a row, with its hash field set to the hash of its own child reference, so
+				// that the second copy passes for the child of the first; the rest is replaced by a bare hash reference (or kept)
+				if sb := (&wmpt.PersistNodeBase{}); cbor.Unmarshal(pt.Pairs[i].Value, sb) == nil && (sb.Short != nil || sb.Branch != nil) {
+					var ref []byte
+					if sb.Short != nil {
+						ref = sb.Short.Value
+					} else {
+						for _, ch := range sb.Branch.Children {
+							if len(ch) >= 40 {
+								ref = ch
+								break
+							}
+						}
+					}
+					if len(ref) >= 40 {
+						if sb.Short != nil {
+							sb.Short.Hash = append([]byte(nil), ref[:32]...)
+						} else {
+							sb.Branch.Hash = append([]byte(nil), ref[:32]...)
+						}
+						twice, _ := cbor.Marshal(sb)
+						hr, _ := cbor.Marshal(&wmpt.PersistNodeBase{HashNode: &wmpt.PersistHashNode{Hash: ref[:32], Weight: binary.BigEndian.Uint64(ref[32:40])}})
+						head := append([]*wmpt.PersistTriePair(nil), pt.Pairs[:i]...)
+						head = append(head, &wmpt.PersistTriePair{Value: twice}, &wmpt.PersistTriePair{Value: twice})
+						run.feed("element repeated as its own child", enc(&wmpt.PersistTrie{Pairs: append(append([]*wmpt.PersistTriePair(nil), head...), &wmpt.PersistTriePair{Value: hr})}))
+						run.feed("element repeated as its own child", enc(&wmpt.PersistTrie{Pairs: append(append([]*wmpt.PersistTriePair(nil), head...), pt.Pairs[i+1:]...)}))
+						run.feed("element repeated as its own child", enc(&wmpt.PersistTrie{Pairs: append(append([]*wmpt.PersistTriePair(nil), head...), &wmpt.PersistTriePair{Value: twice}, &wmpt.PersistTriePair{Value: hr})}))
+					}
+				}
 				// the element itself mutated at node level
 				nb := &wmpt.PersistNodeBase{}
 				if cbor.Unmarshal(pt.Pairs[i].Value, nb) == nil && nb.Branch != nil {
@@ -578,7 +607,7 @@ func init() {
 		Run:          runC15,
 		StallSeconds: 60,
 		Floors: map[string]int64{"inputs_to_a_reused_trie_object": 100000, "stored_records_read_through_the_persistent_store": 100000, "inputs": 1000000, "accepted": 20000, "rejected": 500000, "inputs:util.CreateNode": 100000, "inputs:wmpt.DeserializeNode": 100000, "inputs:WeightedMerkleTrie.Deserialize": 100000, "inputs:WeightedMerkleTrie.VerifyBlockProof": 100000, "inputs:PNodeDB.PruneBelowVersion(dead-node record)": 30000,
-			"mutator:truncation": 50000, "mutator:separator removed": 5000, "mutator:first byte 0..255": 100000, "mutator:cbor head inflated": 10000, "mutator:branch child blob of length 0..80": 1000, "mutator:branch array of 0..20 children": 1000, "mutator:nil element": 1000, "mutator:dead-node record with a key of length 0..140": 5000},
+			"mutator:truncation": 50000, "mutator:separator removed": 5000, "mutator:first byte 0..255": 100000, "mutator:cbor head inflated": 10000, "mutator:branch child blob of length 0..80": 1000, "mutator:branch array of 0..20 children": 1000, "mutator:nil element": 1000, "mutator:element repeated as its own child": 1000, "mutator:dead-node record with a key of length 0..140": 5000},
 		Assumptions: []string{"inputs are near-valid derivations of real encodings plus random strings, at most 64 KiB; not all byte strings"},
 	})
 }
